@@ -962,6 +962,8 @@ def _get_unit_data_from_expr(unit_expr, unit_symbol_lut):
     if isinstance(unit_expr, Number):
         if unit_expr is sympy_one:
             return (1.0, sympy_one)
+        if unit_expr.is_finite is not True:
+            raise UnitParseError(f"Invalid unit expression '{unit_expr}'.")
         return (float(unit_expr), sympy_one)
 
     if isinstance(unit_expr, Symbol):
